@@ -9,36 +9,14 @@ import GoldModel.Drive.Lex
     are stated with (`trueLineCol`, `isBlank`, `Token.covers`, `Kind.valueIsLexeme`, `classify`,
     `LfOrCrlf`), evaluated on the implementation's tokens and errors.  The implementation does not
     store a token's extent; it is recomputed from the text by `specExtent` (the lexeme that
-    starts at the token's offset), and the same function is compared with the model's ghost
-    extents on every case (`extent-model`).
+    starts at the token's offset; `lex_extent_spec` proves the model's ghost extents are exactly
+    that), and the same function is also compared with the model's ghost extents on every case
+    (`extent-model`, a cross-check of the compiled driver).
 
     Output: `ok`, or the names of the clauses that fail (`order`, `value-at-offset`, `gap`,
     `line-col`, `keyword-case`, `extent-model`, `parse`). -/
 namespace Gold.Drive.LexSpecMode
 open Gold Gold.Lex Gold.Drive Gold.C05
-
-/-- chars of a `'…'` literal after the opening quote, closing quote included (`''` = escaped quote) -/
-def litLen1 : List Char → Nat
-  | [] => 0
-  | [c] => 1
-  | c :: c2 :: r => if c = '\'' then (if c2 = '\'' then 2 + litLen1 r else 1) else 1 + litLen1 (c2 :: r)
-
-/-- chars of a `"…"` literal after the opening quote, closing quote included -/
-def litLen2 : List Char → Nat
-  | [] => 0
-  | c :: r => if c = '"' then 1 else 1 + litLen2 r
-
-/-- length of the lexeme that starts at `l`, given the value the token reports: a quoted
-    literal runs to its closing quote (or the end of the text), a comment is `;` + its value,
-    everything else is its value -/
-def specExtent (l : List Char) (value : List Char) : Nat :=
-  match l with
-  | c :: r =>
-    if c = '\'' then 1 + litLen1 r
-    else if c = '"' then 1 + litLen2 r
-    else if c = ';' then 1 + value.length
-    else value.length
-  | [] => value.length
 
 structure ITok where
   kind : Kind
